@@ -37,6 +37,7 @@ struct QIface {
 	virtual void wait() = 0;
 	virtual bool waitFor(int ms) = 0;
 	virtual bool emptyQueue() = 0;
+	virtual unsigned queuedMask() = 0;    // which events sit in the pending list right now (private access, no scheduling point)
 	virtual std::shared_ptr<void> disableNotify() = 0;
 };
 struct HomoImpl : QIface {
@@ -53,6 +54,7 @@ struct HomoImpl : QIface {
 	void wait() override { q.wait(); }
 	bool waitFor(int ms) override { return q.waitFor(std::chrono::milliseconds(ms)); }
 	bool emptyQueue() override { return q.emptyQueue(); }
+	unsigned queuedMask() override { HarnessScope hs; unsigned m = 0; for(auto & x : q.queueList.l) if(!x.empty()) { int id = std::get<0>(x.get().arguments).id; if(id >= 1 && id < 32) m |= 1u << id; } return m; }
 	std::shared_ptr<void> disableNotify() override { return std::shared_ptr<void>(new Q::DisableQueueNotify(&q), [](void * p) { delete static_cast<Q::DisableQueueNotify *>(p); }); }
 };
 struct HeterImpl : QIface {
@@ -69,6 +71,7 @@ struct HeterImpl : QIface {
 	void wait() override { q.wait(); }
 	bool waitFor(int ms) override { return q.waitFor(std::chrono::milliseconds(ms)); }
 	bool emptyQueue() override { return q.emptyQueue(); }
+	unsigned queuedMask() override { HarnessScope hs; unsigned m = 0; for(auto & x : q.queueList) if(!x.empty() && x.get<HQ::QueuedItemBase>().callableIndex == 0) { int id = std::get<0>(x.get<HQ::QueuedItem<std::tuple<Tracked> > >().arguments).id; if(id >= 1 && id < 32) m |= 1u << id; } return m; }
 	std::shared_ptr<void> disableNotify() override { return std::shared_ptr<void>(); }
 };
 
@@ -98,7 +101,7 @@ struct Config {
 };
 
 struct Ev { int id; int producer; long enqStart, enqEnd; int dispatched, taken; long listenerEnd, takeStart, destroyedAt; int consumer; long consumedSeq; };
-struct Call { int thread; OpKind kind; long start, end; int result; bool timedOut; };
+struct Call { int thread; OpKind kind; long start, end; int result; bool timedOut; unsigned queuedAtEnd; };   // queuedAtEnd: events in the pending list when an emptiness claim returned
 struct DqnRec { long ctorStart, ctorDone, dtorStart, dtorEnd; };
 
 struct Run {
@@ -185,7 +188,7 @@ struct Run {
 			break;
 		}
 		case O_PROCESS: case O_PROCESS_ONE: case O_PROCESS_IF_ODD: case O_PROCESS_UNTIL_EVEN: case O_CLEAR: {
-			size_t ci = calls.size(); calls.push_back(Call{thread, k, tick(), -1, -1, false});
+			size_t ci = calls.size(); calls.push_back(Call{thread, k, tick(), -1, -1, false, 0u});
 			bool r = false;
 			if(k == O_PROCESS) r = q->process();
 			else if(k == O_PROCESS_ONE) r = q->processOne();
@@ -197,7 +200,7 @@ struct Run {
 			break;
 		}
 		case O_TAKE: case O_PEEK: {
-			size_t ci = calls.size(); calls.push_back(Call{thread, k, tick(), -1, -1, false});
+			size_t ci = calls.size(); calls.push_back(Call{thread, k, tick(), -1, -1, false, 0u});
 			bool r = false;
 			int pid = q->takeOrPeek(k == O_PEEK, r);
 			calls[ci].result = r; calls[ci].end = tick();
@@ -214,7 +217,7 @@ struct Run {
 			break;
 		}
 		case O_WAIT_PROCESS: case O_WAIT_DRAIN: {
-			size_t ci = calls.size(); calls.push_back(Call{thread, O_WAIT_PROCESS, tick(), -1, -1, false});
+			size_t ci = calls.size(); calls.push_back(Call{thread, O_WAIT_PROCESS, tick(), -1, -1, false, 0u});
 			if(ctx.wantLog()) ctx.log(fmt("T%d: wait() ...", thread));
 			q->wait();
 			calls[ci].end = tick(); calls[ci].result = 1;
@@ -224,7 +227,7 @@ struct Run {
 			break;
 		}
 		case O_WAITFOR_PROCESS: case O_WAITFOR0: {
-			size_t ci = calls.size(); calls.push_back(Call{thread, k, tick(), -1, -1, false});
+			size_t ci = calls.size(); calls.push_back(Call{thread, k, tick(), -1, -1, false, 0u});
 			VThread * m = Sched::me();
 			if(m) m->timedOut = false;
 			bool r = (k == O_WAITFOR0) ? q->waitFor(0) : q->waitFor(10);
@@ -234,8 +237,9 @@ struct Run {
 			break;
 		}
 		case O_EMPTY: {
-			size_t ci = calls.size(); calls.push_back(Call{thread, k, tick(), -1, -1, false});
+			size_t ci = calls.size(); calls.push_back(Call{thread, k, tick(), -1, -1, false, 0u});
 			bool r = q->emptyQueue();
+			calls[ci].queuedAtEnd = q->queuedMask();
 			calls[ci].end = tick(); calls[ci].result = r;
 			if(ctx.wantLog()) ctx.log(fmt("T%d: emptyQueue() -> %d", thread, (int)r));
 			break;
@@ -325,8 +329,12 @@ struct Run {
 				bool putBack = false;
 				for(auto & pc : calls) if((pc.kind == O_PROCESS_IF_ODD || pc.kind == O_PROCESS_UNTIL_EVEN) && pc.start <= c.end && (pc.end < 0 || pc.end >= c.start) && e.enqStart < (pc.end < 0 ? ((long)1 << 40) : pc.end)
 					&& !(e.dispatched && e.listenerEnd >= pc.start && (pc.end < 0 || e.listenerEnd <= pc.end))) putBack = true;
+				// The recorded (open) defect needs the claim to SPAN the put-back: list read (empty) -> put-back -> counter decremented ->
+				// counter read (0), so when the call returns the declined event is back in the pending list. A claim made while the event
+				// is still held in the processing call's private list is a different history and is reported under its own signature.
+				bool heldElsewhere = putBack && c.kind == O_EMPTY && e.id < 32 && !((c.queuedAtEnd >> e.id) & 1u);
 				if(ce < 0 || ce > c.end)
-					ctx.fail(putBack ? "reported-empty-while-declined-event-put-back" : (c.kind == O_EMPTY ? "reported-empty-while-pending" : "waitfor-timeout-while-pending"),
+					ctx.fail(heldElsewhere ? "reported-empty-while-declined-event-still-held" : putBack ? "reported-empty-while-declined-event-put-back" : (c.kind == O_EMPTY ? "reported-empty-while-pending" : "waitfor-timeout-while-pending"),
 						fmt("%s on thread %d reported an empty queue although event %d, whose enqueue had returned before the call began, was %s", opName(c.kind), c.thread, e.id,
 							e.dispatched ? "still being dispatched" : "still pending"));
 			}
@@ -394,7 +402,7 @@ struct Run {
 				for(size_t t = 0; t < cfg.threads.size(); ++t) { int tn = (int)t + 1; s.spawn([this, tn]() { runThread(tn); }); }
 				s.joinAll();
 				for(int i = 0; i < 6; ++i) {
-					size_t ci = calls.size(); calls.push_back(Call{0, O_PROCESS, tick(), -1, -1, false});
+					size_t ci = calls.size(); calls.push_back(Call{0, O_PROCESS, tick(), -1, -1, false, 0u});
 					bool r = queue.process();
 					calls[ci].end = tick(); calls[ci].result = r;
 					if(!r) break;
